@@ -297,8 +297,9 @@ class ValueGen:
                             v = {'s': self.gstr(rng.randrange(0, n + 1) if padded else n)}
                         else:
                             li = lens[ln]['attrs']
-                            mx = IMAX[li['type']] + int(li.get('offset', 0))
-                            v = {'s': self.gstr(rng.randrange(0, min(mx, 6) + 1))}
+                            off = int(li.get('offset', 0))
+                            mx = IMAX[li['type']] + off
+                            v = {'s': self.gstr(rng.randrange(max(off, 0), max(off, 0) + min(mx, 6) + 1))}
                     else:
                         v = self.value(ty, depth)
                 fields.append([name, v])
@@ -318,8 +319,9 @@ class ValueGen:
                     n = int(ln)
                 else:
                     li = lens[ln]['attrs']
-                    mx = IMAX[li['type']] + int(li.get('offset', 0))
-                    n = rng.randrange(0, min(mx, 4) + 1)
+                    off = int(li.get('offset', 0))
+                    mx = IMAX[li['type']] + off
+                    n = rng.randrange(max(off, 0), max(off, 0) + min(mx, 4) + 1)
                 n = min(n, 3) if depth > 1 and ln is None else n
                 fields.append([name, {'l': [self.value(ty, depth + 1) for _ in range(n)]}])
             elif t == 'chunked':
@@ -831,3 +833,122 @@ def show_case(name, tree, case_term):
         f.write(f"Eval vm_compute in (tree_show t ({case_term})).\n")
     rc, out = sh(['timeout', '120', 'coqc', '-Q', COQ, 'EO', '-w', '-all', fn], cwd=COQ)
     return out[-1500:]
+
+
+# ------------------------------------------------------------------------------------------------ declaration-violating mutants (C16)
+def obj_fields(o):
+    return {k: v for k, v in o['f']}
+
+
+def with_field(o, name, v):
+    return {'o': o['o'], 'f': [[k, (v if k == name else x)] for k, x in o['f']]}
+
+
+def flat_body(body):
+    for i in body:
+        if i['tag'] == 'chunked':
+            yield from flat_body(i['body'])
+        else:
+            yield i
+
+
+def obj_mutants(R, vg, cls, body, o, depth=0):
+    """every single declaration-violating change of object o (class cls with raw body), at any nesting depth.
+    yields (description, mutated object)"""
+    flds = obj_fields(o)
+    lens = {i['attrs']['name']: i for i in flat_body(body) if i['tag'] == 'length'}
+    missing = False
+    for i in flat_body(body):
+        t, a = i['tag'], i.get('attrs', {})
+        if t == 'field' and a.get('name') is not None and i.get('text') is None:
+            name = a['name']
+            v = flds.get(name)
+            optional = str(a.get('optional', '')).lower() == 'true'
+            if optional and v is None:
+                missing = True
+            if missing:
+                continue
+            ty = R.rtype(a['type'])
+            if not optional:
+                yield (f"{cls}.{name} = None (required)", with_field(o, name, None))
+            if v is None:
+                continue
+            if ty['k'] == 'int':
+                for z in (IMAX[ty['it']] + 1, IMAX[ty['it']] + 2, 2 ** 64):
+                    yield (f"{cls}.{name} = {z} (at/above the {ty['it']} limit)", with_field(o, name, {'i': z}))
+            elif ty['k'] == 'enum':
+                yield (f"{cls}.{name} = {IMAX[ty['it']] + 1} (enum ordinal at the {ty['it']} limit)", with_field(o, name, {'e': ty['name'], 'v': IMAX[ty['it']] + 1}))
+            elif ty['k'] == 'str' and a.get('length') is not None:
+                ln = a['length']
+                padded = str(a.get('padded', '')).lower() == 'true'
+                if ln.isdigit():
+                    n = int(ln)
+                    yield (f"{cls}.{name}: string of length {n + 1} for length {n}", with_field(o, name, {'s': [65] * (n + 1)}))
+                    if not padded and n > 0:
+                        yield (f"{cls}.{name}: string of length {n - 1} for fixed length {n}", with_field(o, name, {'s': [65] * (n - 1)}))
+                else:
+                    li = lens[ln]['attrs']
+                    mx = IMAX[li['type']] + int(li.get('offset', 0))
+                    if mx < 400:
+                        yield (f"{cls}.{name}: string of length {mx + 1} exceeds its length field's maximum {mx}", with_field(o, name, {'s': [65] * (mx + 1)}))
+            elif ty['k'] == 'struct' and depth < 3:
+                sb = R.structs[ty['name']]['body']
+                for d, sub in obj_mutants(R, vg, ty['name'], sb, v, depth + 1):
+                    yield (f"{cls}.{name} -> {d}", with_field(o, name, sub))
+        elif t == 'array':
+            name = a['name']
+            v = flds.get(name)
+            optional = str(a.get('optional', '')).lower() == 'true'
+            if optional and v is None:
+                missing = True
+            if missing or v is None:
+                continue
+            ty = R.rtype(a['type'])
+            elems = v['l']
+            ln = a.get('length')
+            filler = elems[0] if elems else vg.value(ty, depth + 1)
+            if ln is not None and ln.isdigit():
+                n = int(ln)
+                yield (f"{cls}.{name}: {n + 1} elements for length {n}", with_field(o, name, {'l': elems + [filler]}))
+                if n > 0:
+                    yield (f"{cls}.{name}: {n - 1} elements for length {n}", with_field(o, name, {'l': elems[:-1]}))
+            elif ln is not None:
+                li = lens[ln]['attrs']
+                mx = IMAX[li['type']] + int(li.get('offset', 0))
+                if mx < 400:
+                    yield (f"{cls}.{name}: {mx + 1} elements exceed the length field's maximum {mx}", with_field(o, name, {'l': [filler] * (mx + 1)}))
+            if elems:
+                if ty['k'] == 'int':
+                    yield (f"{cls}.{name}[0] = {IMAX[ty['it']] + 1}", with_field(o, name, {'l': [{'i': IMAX[ty['it']] + 1}] + elems[1:]}))
+                elif ty['k'] == 'struct' and depth < 3:
+                    sb = R.structs[ty['name']]['body']
+                    for d, sub in list(obj_mutants(R, vg, ty['name'], sb, elems[-1], depth + 1))[:4]:
+                        yield (f"{cls}.{name}[{len(elems) - 1}] -> {d}", with_field(o, name, {'l': elems[:-1] + [sub]}))
+        elif t == 'switch':
+            fname = a['field']
+            dn = fname + '_data'
+            dv = flds.get(dn)
+            classes = []
+            for c in i['cases']:
+                if c['body']:
+                    suffix = 'Default' if str(c['attrs'].get('default', '')).lower() == 'true' else c['attrs']['value']
+                    classes.append((f"{cls}.{pascal(fname)}Data{suffix}", c['body']))
+            if dv is not None:
+                yield (f"{cls}.{dn} = None although the selected case has data", with_field(o, dn, None))
+                for ccls, cb in classes:
+                    if ccls != dv['o']:
+                        try:
+                            yield (f"{cls}.{dn} is a {ccls}, the selected case needs {dv['o']}", with_field(o, dn, vg.obj(ccls, cb, depth + 1)))
+                        except Exception:
+                            pass
+                        break
+                cb = next((b for n, b in classes if n == dv['o']), None)
+                if cb is not None and depth < 3:
+                    for d, sub in list(obj_mutants(R, vg, dv['o'], cb, dv, depth + 1))[:6]:
+                        yield (f"{cls}.{dn} -> {d}", with_field(o, dn, sub))
+            else:
+                for ccls, cb in classes[:1]:
+                    try:
+                        yield (f"{cls}.{dn} is a {ccls} although the selected case is empty / no case matches", with_field(o, dn, vg.obj(ccls, cb, depth + 1)))
+                    except Exception:
+                        pass
